@@ -638,6 +638,10 @@ def write_evidence(run, P, proof_obls, discharged, backends, solver_s, covers, v
               wall_s=round(time.time() - run.t0, 2), violations=len(run.violations))
     # debugging runs (--only, --no-bounded) cover only part of the check: their report must never replace the evidence file
     partial = bool(getattr(run.args, "only", None) or getattr(run.args, "no_bounded", False))
+    # runs against a scratch copy of the repository (--repo <worktree>: seeded-change evaluation) are not evidence either
+    scratch_repo = os.path.realpath(getattr(run.args, "repo", "/repo") or "/repo") != "/repo"
     d = os.path.join(ROOT, ".cache", "partial_evidence") if partial else os.path.join(ROOT, "evidence")
+    if scratch_repo:
+        d = os.path.join(ROOT, ".cache", "scratch_evidence", os.path.basename(os.path.realpath(run.args.repo)))
     os.makedirs(d, exist_ok=True)
     json.dump(ev, open(os.path.join(d, f"{run.pid}.json"), "w"), indent=1, default=str)
